@@ -34,10 +34,10 @@ MECHANISMS = [
     ('TotalDepth.RP66V1.core.LogicalFile', 'LogicalFile.add_eflr'),
 ]
 REQUIRED_MONITORS = ['logical_files_vs_model', 'table_vs_model', 'cell_vs_model', 'encrypted_skipped', 'record_position', 'sweep_table']
-MIN_NONTRIVIAL = {'quick': 1500, 'thorough': 100000}
+MIN_NONTRIVIAL = {'quick': 1500, 'thorough': 60000}
 TIMEOUT_S = {'quick': 300, 'thorough': 3000}
 NSHARDS = 16
-FILES = {'quick': 100, 'thorough': 12000}          # random files per shard
+FILES = {'quick': 100, 'thorough': 6000}          # random files per shard
 SWEEP_GROUP = 10                                 # sweep tables per file
 MAX_UNKNOWN_RECORDED = 25
 
@@ -381,7 +381,7 @@ def run_file(ctx, chk, lfs, classes_extra=(), case=True):
                            'set_types': [[bytes.fromhex(t[2]['set_type']).decode('latin-1') for t in x] for x in observed]})
             return
         ri = 0
-        all_ok = True
+        positions_ok = True
         for lf, obs in zip(lfs, observed):
             j = 0
             for e in lf:
@@ -393,14 +393,15 @@ def run_file(ctx, chk, lfs, classes_extra=(), case=True):
                 j += 1
                 rec.mon('record_position')
                 if (vrp, lrp) != (rm.vr_position, rm.lrsh_position):
-                    all_ok = False
+                    positions_ok = False
                     chk.violation('record_position', 'position', 'table position (%d,%d) but the record was written at (%d,%d)' % (
                         vrp, lrp, rm.vr_position, rm.lrsh_position), {'observed': [vrp, lrp], 'expected': [rm.vr_position, rm.lrsh_position],
                                                                        'record': rm.describe()})
-                if not chk.check_table(e.table, e.payload, got, None, 'index'):
-                    all_ok = False
-        if all_ok and nenc:
-            rec.mon('encrypted_skipped', nenc)      # every neighbour of every encrypted record decoded to the model at its own position
+                chk.check_table(e.table, e.payload, got, None, 'index')
+        if positions_ok and nenc:
+            # no table was made of an encrypted record and every plain record was found at its own position; what the neighbours
+            # decode to is compared above like any other table
+            rec.mon('encrypted_skipped', nenc)
         return
     # ---- the index raised: decode every table on its own to find the one(s) responsible
     rec.add('files_index_raised')
